@@ -1087,7 +1087,7 @@ class Interp:
             v = self.operand(st, fr, a[0])
             n = self.constant(st, fr, a[1]) if not a[1].isdigit() else None
             cnt = int(a[1]) if a[1].isdigit() else (n.concrete() if isinstance(n, Sc) else None)
-            if cnt is None or cnt > 64:
+            if cnt is None or cnt > getattr(self, 'max_repeat', 64):
                 raise Unmodelled('repeat count ' + a[1])
             return Agg('[]', [v] * cnt)
         if k == 'len':
